@@ -1,6 +1,7 @@
 mod catalogue;
 mod dynty;
 mod gen;
+mod guard;
 mod obs;
 mod ops;
 mod schema_ops;
@@ -29,6 +30,8 @@ fn main() {
         ops::c04_corpus(&mut out);
     }
     if prop == "IO" {
+    } else if prop == "C15" {
+        guard::guard_workload(&mut out);
     } else if prop == "C14" {
         for e in &catalogue::zst_catalogue() {
             let mut ge = g.fork();
